@@ -752,6 +752,7 @@ func cmdLife(args []string) {
 	rng := newRand()
 	t := newTracer(*trace)
 	defer t.close()
+	t.autoflush = true
 	lr := &lifeRun{t: t}
 	ncases := 0
 	var samples []any
